@@ -453,7 +453,15 @@ impl<S: AsyncWrite + Unpin + 'static> futures_util::AsyncWrite for AsyncWriteStr
             debug_assert!(self.write_future.is_none());
             ready!(self.as_mut().poll_close_impl())?;
         }
-        let res = ready!(self.as_mut().poll_flush_impl());
+        // A flush that was already in flight may have handed the buffer back before it
+        // finished (it still has to flush the inner stream); bytes written since then are
+        // not covered by it. Keep flushing until the buffer is empty.
+        let res = loop {
+            let res = ready!(self.as_mut().poll_flush_impl());
+            if res.is_err() || !self.inner.has_pending_write() {
+                break res;
+            }
+        };
         self.project().flush_waker.take();
         Poll::Ready(res.map(|_| ()))
     }
@@ -462,7 +470,7 @@ impl<S: AsyncWrite + Unpin + 'static> futures_util::AsyncWrite for AsyncWriteStr
         replace_waker(self.as_mut().project().close_waker, cx.waker());
         // Avoid shutdown on flush because the inner buffer might be passed to the
         // driver.
-        if self.write_future.is_some() || self.inner.has_pending_write() {
+        while self.write_future.is_some() || self.inner.has_pending_write() {
             debug_assert!(self.shutdown_future.is_none());
             ready!(self.as_mut().poll_flush_impl())?;
         }
